@@ -39,6 +39,10 @@ FILEMAP = {
     "plugin/proto/algorithm.go": ["C18", "C07"],
 }
 
+for _k, _v in FILEMAP.items():
+    if "C12" not in _v:
+        _v.append("C12")  # robustness is everybody's last resort (panics on error paths)
+
 OPS = [
     (r"==", "!="), (r"!=", "=="),
     (r"<=", "<"), (r">=", ">"),
